@@ -1,6 +1,7 @@
 import GitBugModel.Model.Dag
 import GitBugModel.Lemmas.PackSort
 import GitBugModel.Gen.Dag
+import GitBugModel.Lemmas.Reach
 /-!
 # C02 — a pull never loses operations nor breaks an entity
 
@@ -192,6 +193,79 @@ theorem merge_ref_id_mismatch (h : Dag.read s rh = .ok re) (hid : re.ops.head?.m
   · simp [h, hv, hid]
   · have : entityValid re.ops = false := by simpa using hv
     simp [h, this]
+
+/-- does the head a merge left the local ref at reach `y` (in the store extended by the merge
+commit when one was written)? -/
+def headReaches (s : Store) (out : MergeOut) (nh l rh mp au : String) (y : String) : Prop :=
+  match out.localHead, out.mergeCommit with
+  | some h', none => Reach s h' y
+  | some h', some (_, e) => Reach (s ++ [mkMergeCommit nh l rh mp au e]) h' y
+  | none, _ => False
+
+theorem mergeDiverged_reaches (hfresh : lookup s nh = none) (y : String) (hy : Reach s l y ∨ Reach s rh y)
+    (hst : (mergeDiverged s l rh ce cc nh mp au).status ≠ .error ∨ Reach s l y) :
+    headReaches s (mergeDiverged s l rh ce cc nh mp au) nh l rh mp au y := by
+  unfold mergeDiverged at hst ⊢
+  cases hr : Dag.read s l with
+  | error e =>
+    simp only [hr] at hst ⊢
+    rcases hst with h | h
+    · exact absurd rfl h
+    · exact h
+  | ok le =>
+    simp only [hr]
+    have key : Reach (s ++ [mkMergeCommit nh l rh mp au (max ce (maxOf (le.packs.map (·.edit))) + 1)]) nh y :=
+      (Dag.merge_reach_diverged s l rh nh mp au _ hfresh y).mpr (Or.inr hy)
+    cases hr2 : Dag.read (s ++ [mkMergeCommit nh l rh mp au (max ce (maxOf (le.packs.map (·.edit))) + 1)]) nh with
+    | error e => simp only [headReaches]; exact key
+    | ok me => simp only [headReaches]; exact key
+
+/-- `merge_never_loses`: whatever scenario applies, the head the local ref is left at reaches
+everything the old local head reached (in the store extended by the merge commit when one was
+written): no commit, hence no operation, of the local side is lost by a merge. -/
+theorem mergeExisting_keeps_local {o2 : List Commit}
+    (hbr : bfs s (s.length + 1) [rh] [rh] [] = .ok o2)
+    (hfresh : lookup s nh = none) (y : String) (hy : Reach s l y) :
+    headReaches s (mergeExisting s re l rh ce cc nh mp au) nh l rh mp au y := by
+  unfold mergeExisting
+  by_cases h1 : (l == rh) = true
+  · simp only [h1, if_true, headReaches]; exact hy
+  · by_cases h2 : (reach s l).contains rh = true
+    · simp only [h1, h2, if_true, Bool.false_eq_true, if_false, headReaches]; exact hy
+    · by_cases h3 : (reach s rh).contains l = true
+      · simp only [h1, h2, h3, if_true, Bool.false_eq_true, if_false, headReaches]
+        have : l ∈ reach s rh := by simpa using h3
+        exact Reach.trans ((mem_reach_iff hbr l).mp this) hy
+      · by_cases h4 : (!(reach s l).any (fun h => (reach s rh).contains h)) = true
+        · simp only [h1, h2, h3, h4, if_true, Bool.false_eq_true, if_false, headReaches]; exact hy
+        · simp only [h1, h2, h3, h4, Bool.false_eq_true, if_false]
+          exact mergeDiverged_reaches s rh ce cc nh mp au l hfresh y (Or.inl hy) (Or.inr hy)
+
+/-- … and it reaches everything the remote head reached whenever the merge reports `updated` or
+`nothing` (the remote's commits are all there afterwards) -/
+theorem mergeExisting_gets_remote {o1 : List Commit}
+    (hbl : bfs s (s.length + 1) [l] [l] [] = .ok o1)
+    (hfresh : lookup s nh = none) (y : String) (hy : Reach s rh y)
+    (hst : (mergeExisting s re l rh ce cc nh mp au).status = .updated ∨ (mergeExisting s re l rh ce cc nh mp au).status = .nothing) :
+    headReaches s (mergeExisting s re l rh ce cc nh mp au) nh l rh mp au y := by
+  unfold mergeExisting at hst ⊢
+  by_cases h1 : (l == rh) = true
+  · simp only [h1, if_true, headReaches]
+    have : l = rh := by simpa using h1
+    rw [this]; exact hy
+  · by_cases h2 : (reach s l).contains rh = true
+    · simp only [h1, h2, if_true, Bool.false_eq_true, if_false, headReaches]
+      have : rh ∈ reach s l := by simpa using h2
+      exact Reach.trans ((mem_reach_iff hbl rh).mp this) hy
+    · by_cases h3 : (reach s rh).contains l = true
+      · simp only [h1, h2, h3, if_true, Bool.false_eq_true, if_false, headReaches]; exact hy
+      · by_cases h4 : (!(reach s l).any (fun h => (reach s rh).contains h)) = true
+        · simp only [h1, h2, h3, h4, if_true, Bool.false_eq_true, if_false] at hst
+          rcases hst with h | h <;> cases h
+        · simp only [h1, h2, h3, h4, Bool.false_eq_true, if_false] at hst ⊢
+          apply mergeDiverged_reaches s rh ce cc nh mp au l hfresh y (Or.inr hy)
+          left
+          rcases hst with h | h <;> (rw [h]; intro hc; cases hc)
 
 /-- with a valid remote and an existing local entity, `merge` is `mergeExisting` after the
 remote's clocks have been witnessed -/
